@@ -36,6 +36,8 @@ Definition ptr_eqb (a b : ptr) : bool :=
 (* consumer operations *)
 Inductive cop :=
 | OpDeq               (* dequeue_all (lines 113-127) *)
+| OpDeqRev            (* dequeue_all_reversed (129-143): same accesses, the chain is handed over as an
+                         intrusive_stack, newest first *)
 | OpTryInactive       (* try_mark_inactive (145-162) *)
 | OpInactiveOrDeq     (* try_mark_inactive_or_dequeue_all (168-180) *)
 | OpTryActive         (* try_mark_active (60-67) *)
@@ -51,7 +53,10 @@ Inductive cpc :=
 (* producer: enqueue(item j), lines 101-109 *)
 Inductive ppc :=
 | PLoad (j : nat)               (* about to head_.load(relaxed) *)
-| PCas (j : nat) (old : ptr).   (* item->next set from old; about to CAS old -> item (acq_rel) *)
+| PCas (j : nat) (old : ptr)    (* item->next set from old; about to CAS old -> item (acq_rel) *)
+(* the same with enqueue_or_mark_active(item j), lines 78-93 (what v1 async_mutex uses) *)
+| POLoad (j : nat)
+| POCas (j : nat) (old : ptr).  (* about to CAS old -> (old == inactive ? nullptr : item) *)
 
 Record st := {
   inactive : bool;            (* head_ == the inactive marker *)
@@ -62,7 +67,8 @@ Record st := {
   (* ghost *)
   enq : list item;            (* items in the order of their successful CAS (oldest first) *)
   delivered : list item;      (* concatenation of all batches returned to the consumer so far *)
-  wakes : nat;                (* number of enqueue() calls that returned true *)
+  wakes : nat;                (* number of enqueue() calls that returned true plus
+                                 enqueue_or_mark_active() calls that returned false (activations by a producer) *)
   marks : nat;                (* number of successful try_mark_inactive *)
   actives : nat;              (* number of successful try_mark_active *)
   finalph : bool              (* OpFinal has begun: every producer is done *)
@@ -72,14 +78,26 @@ Inductive ev :=
 | ELoad (v : ptr)                          (* head_.load(relaxed) *)
 | EEnqCas (cur : ptr) (it : item) (ok : bool)   (* enqueue's CAS cur -> it *)
 | EWake (it : item)                        (* enqueue(it) returned true *)
+| EOrmCas (cur : ptr) (it : item) (tonull ok : bool)   (* enqueue_or_mark_active's CAS on the value cur; the new
+                                              value is nullptr (tonull: the expected value was the marker) or it *)
+| EDirect (it : item)                      (* enqueue_or_mark_active(it) returned false: the queue is active
+                                              again, it was not enqueued, the caller processes it itself *)
 | EMarkInactive (cur : ptr) (ok : bool)    (* CAS nullptr -> inactive *)
 | EMarkActive (cur : ptr) (ok : bool)      (* CAS inactive -> nullptr *)
 | EXchg (old : ptr)                        (* exchange(nullptr) *)
-| EBatch (b : list item).                  (* the queue handed to the consumer, front first *)
+| EBatch (b : list item)                   (* the queue handed to the consumer, front first *)
+| EBatchRev (b : list item).               (* the stack handed over by dequeue_all_reversed, top first *)
 
-Definition init (active : bool) (counts : list nat) (ops : list cop) : st :=
+(* producer x calls enqueue_or_mark_active instead of enqueue when the x-th entry of kinds is true *)
+Fixpoint mkprods (counts : list nat) (kinds : list bool) : list (nat * ppc) :=
+  match counts with
+  | [] => []
+  | n :: r => (n, if hd false kinds then POLoad 0 else PLoad 0) :: mkprods r (tl kinds)
+  end.
+
+Definition init (active : bool) (counts : list nat) (kinds : list bool) (ops : list cop) : st :=
   {| inactive := negb active; stack := []; script := ops; cons := CStart;
-     prods := map (fun n => (n, PLoad 0)) counts;
+     prods := mkprods counts kinds;
      enq := []; delivered := []; wakes := 0; marks := 0; actives := 0; finalph := false |}.
 
 Fixpoint set_nth {A} (n : nat) (x : A) (l : list A) : list A :=
@@ -96,7 +114,7 @@ Definition head_ptr (s : st) : ptr :=
 Definition nprods (s : st) : nat := length (prods s).
 
 Definition prod_done (p : nat * ppc) : bool :=
-  match snd p with PLoad j => Nat.leb (fst p) j | _ => false end.
+  match snd p with PLoad j | POLoad j => Nat.leb (fst p) j | _ => false end.
 Definition all_prods_done (s : st) : bool := forallb prod_done (prods s).
 
 (* field updates *)
@@ -146,13 +164,31 @@ Definition step_prod (i : nat) (s : st) : option (st * list ev) :=
         Some (set_prod s2 i (n, PLoad (S j)),
               EEnqCas cur it true :: (if woke then [EWake it] else []))
       else Some (set_prod s i (n, PCas j cur), [EEnqCas cur it false])
+  | Some (n, POLoad j) =>
+      if Nat.ltb j n then Some (set_prod s i (n, POCas j (head_ptr s)), [ELoad (head_ptr s)]) else None
+  | Some (n, POCas j old) =>
+      let it := (S i, j) in
+      let cur := head_ptr s in
+      if ptr_eqb cur old then
+        if inactive s then
+          (* newValue = nullptr: the queue is marked active, the item is handed straight back to the
+             caller -- a batch of one, linearised at this CAS (the chain is empty) *)
+          let s1 := add_delivered (add_enq (set_head s false []) it true) [it] in
+          Some (set_prod s1 i (n, POLoad (S j)), [EOrmCas cur it true true; EDirect it])
+        else
+          let s1 := add_enq (set_head s false (it :: stack s)) it false in
+          Some (set_prod s1 i (n, POLoad (S j)), [EOrmCas cur it false true])
+      else Some (set_prod s i (n, POCas j cur), [EOrmCas cur it (ptr_eqb old PInactive) false])
   end.
 
 (* the exchange(nullptr) of dequeue_all / try_mark_inactive_or_dequeue_all followed by
    make_reversed: the consumer receives the chain oldest first *)
-Definition do_xchg (s : st) (rest : list cop) : st * list ev :=
+Definition do_xchg (s : st) (reversed : bool) (rest : list cop) : st * list ev :=
   let b := rev (stack s) in
-  (set_cons (add_delivered (set_head s false []) b) rest CStart, [EXchg (head_ptr s); EBatch b]).
+  (set_cons (add_delivered (set_head s false []) b) rest CStart,
+   [EXchg (head_ptr s); if reversed then EBatchRev (stack s) else EBatch b]).
+
+Definition is_rev (op : cop) : bool := match op with OpDeqRev => true | _ => false end.
 
 (* the CAS inactive -> nullptr of try_mark_active *)
 Definition do_mark_active (s : st) (rest : list cop) : st * list ev :=
@@ -178,10 +214,11 @@ Definition step_cons (s : st) : option (st * list ev) :=
               if all_prods_done s
               then let (s1, e) := do_mark_active s [OpDeq] in Some (set_final s1, e)
               else None
-          | OpDeq =>
+          | OpDeq | OpDeqRev =>
               if inactive s then self_wake s op rest
               else match stack s with
-                   | [] => Some (set_cons s rest CStart, [ELoad PNull; EBatch []])
+                   | [] => Some (set_cons s rest CStart,
+                                 [ELoad PNull; if is_rev op then EBatchRev [] else EBatch []])
                    | x :: _ => Some (set_cons s (op :: rest) CXchg, [ELoad (PItem x)])
                    end
           | OpTryInactive | OpInactiveOrDeq =>
@@ -196,7 +233,7 @@ Definition step_cons (s : st) : option (st * list ev) :=
                     else Some (set_cons s rest CStart, [ELoad (PItem x)])
                 end
           end
-      | CXchg => Some (do_xchg s rest)
+      | CXchg => Some (do_xchg s (is_rev op) rest)
       | CMarkCas ordeq =>
           match stack s with
           | [] => Some (set_cons (add_mark (set_head s true [])) rest CStart,
